@@ -61,6 +61,20 @@ impl<'a> Eng<'a> {
         let exp = expected_obs(&info);
         check_beacons(sc, &rv, &info, &run, &exp, &mut issues);
         let (compared, matched) = check_node_inputs(&rv, &obs, &mut issues);
+        // a solution whose graph is cyclic / malformed must be rejected before any of its nodes runs
+        if let RefVerdict::Err { failing, .. } = &rv {
+            for (si, f) in failing {
+                if *f == scen::SolFail::InvalidGraph {
+                    let tag = sc.tag(*si);
+                    let unique = (0..sc.solutions.len()).filter(|j| sc.tag(*j) == tag).count() == 1;
+                    let ran = obs.iter().filter(|o| o.phase == 1 && o.tag == tag).count();
+                    if unique && ran > 0 {
+                        issues.push(Issue { property: "C01", kind: "partial-evaluation", detail: format!("solution {si} has a cyclic or malformed graph but {ran} of its node programs were started") });
+                    }
+                    self.rep.count("invalid_graphs_checked_for_partial_evaluation");
+                }
+            }
+        }
         self.rep.add("node_inputs_compared", compared);
         self.rep.add("node_inputs_matching", matched);
         self.rep.add("beacon_events", run.beacons.len() as u64);
@@ -348,6 +362,21 @@ pub fn run(args: &Args, rep: &mut Report) {
                     for s in 0..seeds {
                         let ds = if s == 0 { 0 } else { r.next_u64() | 1 };
                         let (_, real, _) = e.judge(&sc, p, ds, "pool-matrix");
+                        if s == 0 && (p == 1 || p == 16) {
+                            // the other entry points (Outputs then Checks over a shared cache) under the same pools
+                            let (_, m, _) = e.judge(&sc, p, 0, "manual-two-phase");
+                            if let Some((f, p0, _)) = &first {
+                                let same = match (f, &m) {
+                                    (RealVerdict::Ok { gas: g1, mutations: m1 }, RealVerdict::Ok { gas: g2, mutations: m2 }) => g1 == g2 && m1 == m2,
+                                    (RealVerdict::Err { failing: a }, RealVerdict::Err { failing: b }) => a.keys().collect::<Vec<_>>() == b.keys().collect::<Vec<_>>() || a.values().chain(b.values()).all(|x| *x == scen::RealFail::Mutations),
+                                    (RealVerdict::Panic(_), RealVerdict::Panic(_)) => true,
+                                    _ => false,
+                                };
+                                if !same && !matches!(reference(&sc).0, RefVerdict::Unspec(_)) {
+                                    e.rep.violation("C02", "entry-points-disagree", format!("two-pass under pool {p0} gives {}, Outputs+Checks under pool {p} gives {}", short(f), short(&m)), case_json(&sc, json!({"pools": [p0, p]})));
+                                }
+                            }
+                        }
                         match &first {
                             None => first = Some((real, p, ds)),
                             Some((f, p0, d0)) => {
